@@ -45,13 +45,13 @@ def check(ctx):
         for s in texts.seqs_upto(texts.REDUCED[:16], L):
             tx.append(texts.text_of_kinds(s))
         ctx.count("exhaustive_token_texts", len(tx) - len(CORPUS))
-        ps = progs.gen_programs(ctx, 600 if ctx.thorough else 150)
+        ps = progs.gen_programs(ctx, 1800 if ctx.thorough else 150)
         valid = [p["mods"][p["main"]] for p in ps if len(p["mods"]) == 1]
         for t in valid:
             tx.append(t)
             for _ in range(3):
                 tx.append(texts.mutate_text(ctx.rng, t))
-        for _ in range(3000 if ctx.thorough else 600):
+        for _ in range(9000 if ctx.thorough else 600):
             tx.append(texts.unicode_garbage(ctx.rng, 60))
         for op, cl, corev in texts.NESTINGS:
             for d in (50, 200):
